@@ -328,4 +328,98 @@ def domViolations (jc : JavaCfg) (c : JniCfg) (d : Decl) : List String :=
   (if noJavaBaseRecord d then [] else ["noJavaBaseRecord"]) ++
   (if staticOnlyOnCppInterfaces d then [] else ["staticOnlyOnCppInterfaces"])
 
+/-! ## support classes of asynchronous methods (`NativeRunnable`, `NativeCompletion`), written once per generation -/
+
+/-- `JniGenerator.java_support_package`: a plain property, read from the configuration the generator instance holds
+    *at the time it generates* (`metadata.java.config`) -/
+def jniSupportPackage (jc : JavaCfg) : List String := jc.package ++ jc.supportPackage
+
+/-- `JavaGenerator.generate_runnable / generate_completion`: the package the Java support classes are written to -/
+def javaSupportPackage (jc : JavaCfg) : List String := jc.package ++ jc.supportPackage
+
+def supportJniClass (jc : JavaCfg) (n : String) : String := joinS "/" (jniSupportPackage jc ++ [n])
+
+/-- `schedule.hpp` / `completion.hpp`: `JniInterface("<package>/NativeRunnable")`, … -/
+def supportLookups (jc : JavaCfg) (runnable completion : Bool) : List Lookup :=
+  (if runnable then proxyLookups (supportJniClass jc "NativeRunnable") else []) ++
+  (if completion then proxyLookups (supportJniClass jc "NativeCompletion") else [])
+
+/-- `schedule.cpp` / `completion.cpp`: the `JNIEXPORT` functions, `jni_prefix(java_support_package + [name])` -/
+def supportExports (jc : JavaCfg) (runnable completion : Bool) : List Export :=
+  let pfx (n : String) : String := jniPrefix (jniSupportPackage jc ++ [n])
+  (if runnable then
+    [{ symbol := pfx "NativeRunnable" ++ "_00024CleanupTask_nativeDestroy", ret := "void", recv := "jobject", params := ["jlong"] },
+     { symbol := pfx "NativeRunnable" ++ "_nativeRun", ret := "void", recv := "jobject", params := ["jlong"] }] else []) ++
+  (if completion then
+    [{ symbol := pfx "NativeCompletion" ++ "_00024CleanupTask_nativeDestroy", ret := "void", recv := "jobject", params := ["jlong"] },
+     { symbol := pfx "NativeCompletion" ++ "_nativeSuccess", ret := "void", recv := "jobject", params := ["jlong", "jobject"] },
+     { symbol := pfx "NativeCompletion" ++ "_nativeException", ret := "void", recv := "jobject", params := ["jlong", "jthrowable"] }] else [])
+
+def jObject : JType := .cls ["java", "lang"] "Object" []
+def jThrowable : JType := .cls ["java", "lang"] "Throwable" []
+
+/-- `NativeRunnable.java` / `NativeCompletion.java` -/
+def supportMembers (jc : JavaCfg) (runnable completion : Bool) : List JMember :=
+  let spkg := javaSupportPackage jc
+  (if runnable then
+    proxyMembers spkg "NativeRunnable" ++
+    [{ pkg := spkg, cname := "NativeRunnable", kind := "method", name := "nativeRun", isStatic := false, isNative := true, params := [jlong], ret := none }] else []) ++
+  (if completion then
+    proxyMembers spkg "NativeCompletion" ++
+    [{ pkg := spkg, cname := "NativeCompletion", kind := "method", name := "nativeSuccess", isStatic := false, isNative := true, params := [jlong, jObject], ret := none },
+     { pkg := spkg, cname := "NativeCompletion", kind := "method", name := "nativeException", isStatic := false, isNative := true, params := [jlong, jThrowable], ret := none }] else [])
+
+def supportClasses (jc : JavaCfg) (runnable completion : Bool) : List String :=
+  let cls (n : String) : String := joinS "/" (javaSupportPackage jc ++ [n])
+  (if runnable then [cls "NativeRunnable", cls "NativeRunnable" ++ "$CleanupTask"] else []) ++
+  (if completion then [cls "NativeCompletion", cls "NativeCompletion" ++ "$CleanupTask"] else [])
+
+/-! ## one `API` object, several configure → parse → generate rounds
+
+The generator instances are created once per `API` object; every `configure` *replaces* the configuration (and the
+metadata of the sibling generators) they hold, every `generate` reads it anew (no value derived from the configuration
+is kept in the instance). -/
+
+structure Round where
+  jc : JavaCfg
+  c : JniCfg
+  decls : List Decl
+
+/-- what the Java / JNI generator instances hold between two calls -/
+structure GenState where
+  jc : JavaCfg
+  c : JniCfg
+
+structure RoundOut where
+  lookups : List Lookup
+  exports : List Export
+  members : List JMember
+  classes : List String
+
+/-- `any(isinstance(t, Interface) and target in t.targets and any(m.asynchronous …))` -/
+def asyncOn (target : String) (decls : List Decl) : Bool :=
+  decls.any (fun d => match d with
+    | .interface u ms => u.targets.contains target && ms.any (·.isAsync)
+    | _ => false)
+
+/-- `Generator.configure`: the held configuration is replaced -/
+def GenState.configure (_ : GenState) (r : Round) : GenState := { jc := r.jc, c := r.c }
+
+/-- `generate("java")` with the configuration held by the instances -/
+def GenState.generate (s : GenState) (decls : List Decl) : RoundOut :=
+  let runnable := asyncOn "cpp" decls
+  let completion := asyncOn "java" decls
+  { lookups := decls.flatMap (jniLookups s.jc s.c) ++ supportLookups s.jc runnable completion,
+    exports := decls.flatMap (jniExports s.jc s.c) ++ supportExports s.jc runnable completion,
+    members := decls.flatMap (javaMembers s.jc) ++ supportMembers s.jc runnable completion,
+    classes := decls.flatMap (javaClasses s.jc) ++ supportClasses s.jc runnable completion }
+
+/-- the outputs of a call history on one `API` object -/
+def runHistory (s : GenState) : List Round → List RoundOut
+  | [] => []
+  | r :: rs => (s.configure r).generate r.decls :: runHistory (s.configure r) rs
+
+/-- what a fresh `API` object writes for one round -/
+def freshRound (r : Round) : RoundOut := GenState.generate { jc := r.jc, c := r.c } r.decls
+
 end Pydjinni.Gen
